@@ -350,10 +350,12 @@ def get_edges(blocks, first_edge=0, polarity=0, analyse=False):
                     for d in b_timings[b]:
                         tstates += d
                         edges.append(tstates)
-                bt = b_timings[data[-1]]
-                for d in bt[:(len(bt) * timings.used_bits) // 8]:
-                    tstates += d
-                    edges.append(tstates)
+                b = data[-1]
+                for j in range(timings.used_bits):
+                    for d in timings.one if b & 0x80 else timings.zero:
+                        tstates += d
+                        edges.append(tstates)
+                    b *= 2
 
             # Tail pulse
             if timings.tail:
